@@ -108,6 +108,23 @@ def ARR(dom: Sort, rng: Sort) -> Sort:
     return Sort("arr", dom, rng)
 
 
+class NEW:
+    """in a `lists` case: one freshly created element of this sort (e.g. a new row message)"""
+    def __init__(self, sort: Sort, name: str = "new") -> None:
+        self.sort = sort
+        self.name = name
+
+
+def ABSITER(elem: Sort) -> Sort:
+    """an iterable of unknown length whose items are of sort `elem` (consumed by loops that carry an invariant)"""
+    return Sort("absiter", elem)
+
+
+def ABSMAP(key: Sort, val: Sort) -> Sort:
+    """a mapping of unknown size: only .items()/.values()/.keys() as abstract iterables"""
+    return Sort("absmap", key, val)
+
+
 def CONSTV(value: Any) -> Sort:
     return Sort("const", value)
 
@@ -160,6 +177,11 @@ class Contract:
     inline_at_calls: bool = False                                    # verified against this contract, but call sites execute the body
     tag_suffix: dict[str, list[str]] = field(default_factory=dict)   # ensures-label suffix -> properties
     ghost_enter: Callable[[Any], None] | None = None                  # ghost prologue (body verification only)
+    lists: Callable[[Any], list] | None = None            # structural post-state of row lists, by case (see engine.apply_list_cases)
+    lists_on_raise: Callable[[Any], list] | None = None
+    yields: Any = None            # generator functions: Sort of the items a consumer receives (consumer loops see an abstract iterable of them)
+    linear: bool = False          # the Optional[message] result is a resource: whoever obtains one must yield/return it (frames are never dropped)
+    yields_linear: bool = False   # generator body: every linear resource obtained on a path has been yielded when the iteration/generator ends
 
 
 class Registry:
@@ -220,6 +242,11 @@ def contract(key: str, serves: list[str] | None = None, trusted: bool = False, i
             inline_at_calls=bool(cls.__dict__.get("inline_at_calls", False)),
             tag_suffix=dict(cls.__dict__.get("tag_suffix", {})),
             ghost_enter=_fn(cls, "ghost_enter"),
+            lists=_fn(cls, "lists"),
+            lists_on_raise=_fn(cls, "lists_on_raise"),
+            yields=cls.__dict__.get("yields"),
+            linear=bool(cls.__dict__.get("linear", False)),
+            yields_linear=bool(cls.__dict__.get("yields_linear", False)),
         )
         c.virtual = bool(cls.__dict__.get("virtual", False))
         REGISTRY.add(c)
@@ -277,6 +304,9 @@ class LoopSpec:
     raises: Callable[[Any, Any, int], dict[Any, Any]] | None = None
     invariant: Callable[[Any], dict[str, Any]] | None = None
     appends: dict[str, Any] = field(default_factory=dict)   # list local -> Sort of the one element each iteration appends
+    after_each: Callable[[Any], dict[str, Any]] | None = None   # invariant loops: holds at the end of every iteration (proved there, not assumed at the head)
+    local_sorts: dict[str, Any] = field(default_factory=dict)   # invariant loops: Sort of a havoced local whose value changes kind (None -> object)
+    extends: list[str] = field(default_factory=list)        # invariant loops: row lists that only ever grow (old items + unknown rest)
 
 
 def inline(key: str) -> None:
